@@ -199,8 +199,11 @@ def two_step(case, ji_normal, ji_partial, seed):
         except sp.ParseError:
             return "skip:unparsed", []
         for p_, m_, *_ in ldlink.inputs_of(sast):
-            if seen_files.setdefault((p_, m_), name) != name:
-                return "skip:file-listed-in-two-segments", []
+            for (q_, n_), owner in seen_files.items():
+                # the same object, or the same archive with overlapping members ("*" is every member)
+                if owner != name and q_ == p_ and (m_ == n_ or m_ == "*" or n_ == "*"):
+                    return "skip:file-listed-in-two-segments", []
+            seen_files.setdefault((p_, m_), name)
         for s_, ctx in sp.walk(sast):
             if s_["k"] == "assign" and seen_syms.setdefault(s_["sym"], name) != name:
                 return "skip:symbol-defined-by-two-partial-scripts", []
